@@ -3,6 +3,7 @@
 
 pub mod common;
 pub mod r#gen;
+pub mod dag;
 pub mod model;
 pub mod p_diff;
 pub mod p_files;
